@@ -382,7 +382,8 @@ func (m *MatchRDP) Match(cx *layer4.Connection) (bool, error) {
 
 	// Validate RDPCorrInfo boundaries
 	RDPCorrInfoBytesStart := RDPNegReqBytesStart + RDPNegReqBytesTotal
-	if RDPCorrInfoBytesStart+RDPCorrInfoBytesTotal > payloadBytesTotal {
+	if RDPCorrInfoBytesStart+RDPCorrInfoBytesTotal != payloadBytesTotal {
+		// RDPCorrInfo is the last structure of the payload: it must end exactly there
 		return false, nil
 	}
 
